@@ -495,6 +495,7 @@ func Gen(r *rand.Rand, o GenOpts) []string {
 		out := []string{"Y", fmt.Sprint(ghostN), g[1], g[2], g[3], g[4], fr}
 		return append(out, g[5:]...)
 	}
+	var probeTargets []int // parents of recent ghost / speculative events: targets of FC probes
 	pushBoth := func(g []string) { main = append(main, g); alt = append(alt, g) }
 	altStarted := o.Mix != "C09"
 	for si, it := range order {
@@ -543,6 +544,9 @@ func Gen(r *rand.Rand, o GenOpts) []string {
 		skipP := false
 		switch o.Mix {
 		case "C02", "C03":
+			if r.Intn(12) == 0 && len(cur.all) > 1 {
+				push([]string{"Q", fmt.Sprint(cur.all[len(cur.all)-1-r.Intn(min(4, len(cur.all)))]), fmt.Sprint(cur.all[r.Intn(len(cur.all))])})
+			}
 			if r.Intn(10) == 0 && len(cur.all) > 0 {
 				push([]string{"M", fmt.Sprint(cur.all[r.Intn(len(cur.all))])})
 			}
@@ -550,6 +554,9 @@ func Gen(r *rand.Rand, o GenOpts) []string {
 				push([]string{"G", fmt.Sprint(1 + r.Intn(int(e.def.Frame)+1))})
 			}
 		case "C04":
+			if r.Intn(5) == 0 && len(cur.all) > 1 {
+				main = append(main, []string{"Q", fmt.Sprint(cur.all[len(cur.all)-1-r.Intn(min(4, len(cur.all)))]), fmt.Sprint(cur.all[r.Intn(len(cur.all))])})
+			}
 			if r.Intn(6) == 0 {
 				if g := ghost(); g != nil {
 					main = append(main, g)
@@ -584,6 +591,23 @@ func Gen(r *rand.Rand, o GenOpts) []string {
 			if r.Intn(4) == 0 {
 				if g := ghost(); g != nil {
 					main = append(main, g)
+					for _, p := range g[7:] {
+						pn, _ := strconv.Atoi(p)
+						probeTargets = append(probeTargets, pn)
+					}
+					if len(probeTargets) > 12 {
+						probeTargets = probeTargets[len(probeTargets)-12:]
+					}
+				}
+			}
+			if len(cur.all) > 0 && len(probeTargets) > 0 && r.Intn(2) == 0 {
+				// forkless-cause probes of recent events against the parents of dropped events
+				a := cur.all[len(cur.all)-1-r.Intn(min(3, len(cur.all)))]
+				for k := 0; k < 3; k++ {
+					b := probeTargets[r.Intn(len(probeTargets))]
+					if evs[b].def.Epoch == cur.epoch {
+						pushBoth([]string{"Q", fmt.Sprint(a), fmt.Sprint(b)})
+					}
 				}
 			}
 			if r.Intn(3) == 0 {
@@ -716,4 +740,11 @@ func shuffleScript(r *rand.Rand, script []item, evs []*genEv) []item {
 	}
 	flush(seg)
 	return out
+}
+
+func min(a, b int) int {
+	if a < b {
+		return a
+	}
+	return b
 }
